@@ -1,7 +1,6 @@
 package props
 
 import (
-	"bytes"
 	"encoding/json"
 	"fmt"
 	nurl "net/url"
@@ -11,7 +10,6 @@ import (
 	"strings"
 	"testing"
 
-	"github.com/go-shiori/dom"
 	distiller "github.com/markusmobius/go-domdistiller"
 	"golang.org/x/net/html"
 	"pgregory.net/rapid"
@@ -25,6 +23,31 @@ type c11Doc struct {
 	HTML string  `json:"html"`
 	Opts OptSpec `json:"opts"`
 	Kind string  `json:"kind"`
+	// Legacy: the bytes of the document are not UTF-8: every U+E0B0 of HTML stands for the byte pair
+	// B0 A1 (a character in EUC-KR, GB18030, EUC-JP and Big5, two in Shift_JIS). Such a document has
+	// no reference parse; it is only handed to the byte-stream entry points, whose results must be
+	// the same from call to call.
+	Legacy bool `json:"legacy,omitempty"`
+}
+
+// Bytes returns the document as handed to the byte-stream entry points.
+func (d c11Doc) Bytes() string {
+	if d.Legacy {
+		return strings.ReplaceAll(d.HTML, "\ue0b0", "\xb0\xa1")
+	}
+	return d.HTML
+}
+
+// legacyDoc: digits and one double-byte character of a legacy East Asian encoding.
+func legacyDoc(t *rapid.T) c11Doc {
+	var b strings.Builder
+	b.WriteString("<html><head><title>12345 67890 \ue0b0 2468</title></head><body><div><p>")
+	n := rapid.IntRange(20, 80).Draw(t, "legacyn")
+	for i := 0; i < n; i++ {
+		b.WriteString(fmt.Sprintf("%d %d %d. ", 1000+i, 5678+i*3, 9012-i))
+	}
+	b.WriteString("\ue0b0 </p></div></body></html>")
+	return c11Doc{HTML: b.String(), Opts: OptSpec{Nil: rapid.Bool().Draw(t, "legacynil")}, Kind: "legacy-bytes", Legacy: true}
 }
 
 type c11Step struct {
@@ -130,8 +153,8 @@ func genC11Doc(t *rapid.T) c11Doc {
 	}
 }
 
-// unicodeSnippet holds text that dom.Parse rewrites (decomposed accents, Hangul jamo, soft hyphens,
-// NFC singletons): the reader and file entry points must treat it exactly as Apply(dom.Parse(bytes)).
+// unicodeSnippet holds text that the byte-stream entry points normalise (decomposed accents, Hangul
+// jamo, soft hyphens, NFC singletons): they must treat it exactly as Apply on the reference parse.
 const unicodeSnippet = "<p>re\u0301sume\u0301 co\u00adoperate nai\u0308ve \u1112\u1161\u11ab \u212b \u2126 fi\u00adnal e\u0301te\u0301 " +
 	"cafe\u0301 soft\u00adhyphen A\u030a o\u0302 u\u0308 n\u0303 text text text text text text text text text text text text.</p>"
 
@@ -139,9 +162,19 @@ func genC11(t *rapid.T) *Case {
 	ex := c11Extra{Repeat: 8}
 	n := rapid.IntRange(1, 3).Draw(t, "ndocs")
 	for i := 0; i < n; i++ {
+		if rapid.IntRange(0, 9).Draw(t, "legacy") == 0 {
+			ex.Docs = append(ex.Docs, legacyDoc(t))
+			continue
+		}
 		d := genC11Doc(t)
 		if rapid.IntRange(0, 2).Draw(t, "unicode") == 0 {
 			d.HTML = strings.Replace(d.HTML, "</body>", unicodeSnippet+"</body>", 1)
+		}
+		if rapid.IntRange(0, 3).Draw(t, "sparse") == 0 {
+			// one non-ASCII word in English prose (short: several encodings are equally likely;
+			// long: a legacy code page looks more likely than UTF-8 to a statistical guesser)
+			para := sparseNonASCIIParagraph(rapid.SampledFrom([]string{"café", "Zürich", "don’t", "naïve", "señor", "œuvre"}).Draw(t, "special"), rapid.Bool().Draw(t, "longprose"))
+			d.HTML = strings.Replace(d.HTML, "</body>", para+"</body>", 1)
 		}
 		ex.Docs = append(ex.Docs, d)
 	}
@@ -168,10 +201,13 @@ func checkC11(c *Case) (*Violation, caseInfo) {
 	run := func(i int, entry string) (string, bool) {
 		d := ex.Docs[i]
 		var out callOutcome
+		if d.Legacy && entry != "file" {
+			entry = "reader" // no reference parse for bytes in a legacy encoding
+		}
 		switch entry {
 		case "reader":
 			out = guarded(0, func() (*distiller.Result, error) {
-				return distiller.ApplyForReader(strings.NewReader(d.HTML), d.Opts.Build())
+				return distiller.ApplyForReader(strings.NewReader(d.Bytes()), d.Opts.Build())
 			})
 		case "file":
 			dir := os.Getenv("VERIF_SCRATCH")
@@ -179,16 +215,16 @@ func checkC11(c *Case) (*Violation, caseInfo) {
 				dir = os.TempDir()
 			}
 			f := filepath.Join(dir, fmt.Sprintf("c11-%d.html", os.Getpid()))
-			os.WriteFile(f, []byte(d.HTML), 0o644)
+			os.WriteFile(f, []byte(d.Bytes()), 0o644)
 			out = guarded(0, func() (*distiller.Result, error) { return distiller.ApplyForFile(f, d.Opts.Build()) })
 			os.Remove(f)
 		case "apply-shared-tree":
 			if shared[i] == nil {
-				shared[i], _ = dom.Parse(bytes.NewReader([]byte(d.HTML)))
+				shared[i], _ = refParse(d.HTML)
 			}
 			out = guarded(0, func() (*distiller.Result, error) { return distiller.Apply(shared[i], d.Opts.Build()) })
 		default:
-			doc, err := dom.Parse(bytes.NewReader([]byte(d.HTML)))
+			doc, err := refParse(d.HTML)
 			if err != nil {
 				return "", false
 			}
